@@ -260,6 +260,7 @@ func (o *Oracle) finalChecks() {
 		}
 	}
 	o.finalNotify()
+	o.checkLogMatching()
 	// all live FSMs that reached the same index hold the same state (C02)
 	type fs struct {
 		tag string
